@@ -22,6 +22,13 @@
 (*              run restarted; then writes (rolls), restarts, further      *)
 (*              kills: "kill" steps carry the size n of the write during   *)
 (*              which the run dies and j                                   *)
+(*  "evfail"    the event machine with flushes that fail after creating    *)
+(*              their temp file ("tickfail" / "stopfail") among good ones, *)
+(*              one push per flush, over directories found with event      *)
+(*              files and leftover temp files below, at and beyond the cap *)
+(*  "shortruns" the log machine doing (one write of one unit, restart)     *)
+(*              again and again from directories an earlier run can have   *)
+(*              left (room for the current file): a crash loop             *)
 (***************************************************************************)
 EXTENDS DiskBounds, Json, IOUtils
 
@@ -32,19 +39,22 @@ GenMode == IF "GEN_MACHINE" \in DOMAIN IOEnv THEN IOEnv.GEN_MACHINE ELSE "all"
 GenMachine == CASE GenMode = "evstop" -> "event"
                 [] GenMode = "logfault" -> "log"
                 [] GenMode = "rollkill" -> "log"
+                [] GenMode = "evfail" -> "event"
+                [] GenMode = "shortruns" -> "log"
                 [] OTHER -> GenMode
 GenDepth == IF "GEN_DEPTH" \in DOMAIN IOEnv THEN atoi(IOEnv.GEN_DEPTH) ELSE 12
 
 \* expected abstract state AFTER the step (primed variables), as compared with the directory listings;
 \* refused: the write is expected to be refused (roll needed while the rename fails)
-After(o, k, jj) == [op |-> o, n |-> k, j |-> jj, arch |-> arch', cur |-> cur', ev |-> evFiles', q |-> evQueue',
-                wrote |-> IF evFiles' > evFiles THEN evQueue ELSE 0, dumps |-> dumps',
+After(o, k, jj) == [op |-> o, n |-> k, j |-> jj, arch |-> arch', cur |-> cur', ev |-> evFiles', tmp |-> evTmp',
+                q |-> evQueue', wrote |-> IF evFiles' > evFiles THEN evQueue ELSE 0, dumps |-> dumps',
                 refused |-> (o = "write" /\ ShouldRoll /\ rollFails), pin |-> rollFails', run |-> evRun']
 Log(o, k) == hist' = Append(hist, After(o, k, 0))
 LogJ(o, k, jj) == hist' = Append(hist, After(o, k, jj))
 
 GInit == /\ Init
-         /\ hist = << [op |-> "init", n |-> 0, j |-> 0, arch |-> arch, cur |-> cur, ev |-> evFiles, q |-> 0,
+         /\ (GenMode = "shortruns" => logLegal)
+         /\ hist = << [op |-> "init", n |-> 0, j |-> 0, arch |-> arch, cur |-> cur, ev |-> evFiles, tmp |-> evTmp, q |-> 0,
                        wrote |-> 0, dumps |-> dumps, refused |-> FALSE, pin |-> FALSE, run |-> TRUE] >>
 
 Unpinned == \E i \in DOMAIN hist : hist[i].op = "unpin"
@@ -69,11 +79,24 @@ Allowed(o) ==
            [] o = "kill" -> debt < 2
            [] o = "restart" -> Killed
            [] OTHER -> FALSE
+    [] GenMode = "evfail" ->
+         CASE o = "push" -> evRun /\ evQueue = 0
+           [] o = "tick" -> evQueue > 0
+           [] o = "tickfail" -> TRUE
+           [] o = "stop" -> evQueue > 0
+           [] o = "stopfail" -> TRUE
+           [] o = "restart" -> ~evRun
+           [] o = "remove" -> evFiles + evTmp >= Cap
+           [] OTHER -> FALSE
+    [] GenMode = "shortruns" ->
+         CASE o = "write" -> hist[Len(hist)].op # "write"
+           [] o = "restart" -> hist[Len(hist)].op = "write"
+           [] OTHER -> FALSE
     [] OTHER -> o # "kill"                    \* (kills are replayed under strace: kept to the directed mode)
 
 GNext ==
   /\ Len(hist) <= GenDepth
-  /\ \/ \E n \in 1..MaxWrite : /\ Allowed("write")
+  /\ \/ \E n \in 1..MaxWrite : /\ Allowed("write") /\ (GenMode = "shortruns" => n = 1)
                                /\ \/ LogWriteNoRoll(n) \/ LogWriteRollKeep(n) \/ LogWriteRollTrim(n)
                                   \/ LogWriteRollFails(n)
                                /\ Log("write", n)
@@ -82,7 +105,9 @@ GNext ==
      \/ Allowed("unpin") /\ LogFaultOff /\ Log("unpin", 0)
      \/ \E k \in 1..MaxPush : Allowed("push") /\ (EvPush(k) \/ EvPushClosed(k)) /\ Log("push", k)
      \/ Allowed("tick") /\ (EvTickIdle \/ EvTickWrite \/ EvTickDrop \/ EvTickStopped) /\ Log("tick", 0)
+     \/ Allowed("tickfail") /\ EvTickFails /\ Log("tickfail", 0)
      \/ Allowed("stop") /\ EvStop /\ Log("stop", 0)
+     \/ Allowed("stopfail") /\ EvStopFails /\ Log("stopfail", 0)
      \/ \E k \in 1..2 : Allowed("remove") /\ EvReaderRemove(k) /\ Log("remove", k)
      \/ Allowed("dump") /\ (DumpWriteKeep \/ DumpWriteTrim) /\ Log("dump", 0)
      \/ Allowed("restart") /\ Restart /\ Log("restart", 0)
